@@ -477,6 +477,11 @@ func c17Run(r *RunCtx, prop string) error {
 		// (Model/Merkle.v: SHA-256 leaf pre-image, SHA3-512 tree walk) on the very payloads submitted
 		r.Group("merkle", "From JK Require Import Model.Merkle Corr.C02.", "c02_case", "c02_ok")
 	}
+	if prop == "C01" {
+		if err := c01RestartTwin(r); err != nil {
+			return err
+		}
+	}
 	nh := r.Scale(10, 120)
 	for k := 0; k < nh; k++ {
 		h := &c17Hist{r: r, prop: prop, t: c17NewTab(), p: r.Rng.Fork(), everValid: map[string]bool{}, hid: k}
